@@ -21,7 +21,8 @@ RULE = ("three workloads over generated object dictionaries (variables, records,
         "DefaultValue), string/domain lengths 0..64 exhaustive; (b) downloads (expedited with and without size, segmented "
         "with/without size, short middle segments) followed by store / callback / upload comparison; (c) request histories "
         "from a freshly created node mixing valid transfers with arbitrary 1..8 byte frames. Signature = (workload, type, "
-        "source set or download mode, length class); non-trivial = value length != 4 or more than one source.")
+        "source set or download mode, length class); non-trivial = value length != 4 or more than one source. Widened later: expedited "
+        "downloads without size indication (e=1, s=0) of four bytes to string and domain entries.")
 ASSUMPTIONS = ["0-byte CAN frames are outside the property (1..8)", "which abort code answers garbage is C06's business",
                "malformed (shorter than 8 bytes) client abort frames are not judged for the no-response rule",
                "expedited downloads without size indication are sent to 4-byte entries only"]
@@ -263,8 +264,11 @@ def downloads(ctx, h, rng):
             modes = ["segmented"]
             if 1 <= len(data) <= 4:
                 modes.append("expedited")
-            if len(data) == 4 and (vm.dt in R.NUMERIC):
+            if len(data) == 4:
+                # e=1, s=0: all four data bytes belong to the object, whatever its type (strings and domains included)
                 modes.append("expedited_nosize")
+                if vm.dt not in R.NUMERIC:
+                    modes.append("expedited_nosize")
             mode = rng.choice(modes)
             size_ind = rng.random() < 0.6
             seg_sizes = None
